@@ -410,6 +410,13 @@ def r3(run, ctx):
             got[True] = _expr_layers(a.value, env)
         elif guarded(cfg, node[0], copy_env, False):
             got[False] = _expr_layers(a.value, env)
+    from rules.common import is_fresh_container
+    for a in wenv:
+        run.check('R3', is_fresh_container(a.value), "each watcher gets its own env object (the "
+                  "env:PATTERN sections update it in place)", f, a,
+                  "watcher['env'] aliases the shared dict %s: an env:PATTERN section applied to "
+                  "one watcher leaks into every watcher sharing it" % norm_text(a.value),
+                  construct="watcher env aliases %s" % norm_text(a.value))
     run.check('R3', got.get(True) == ['os.environ', '[env]'], 'with copy_env a watcher starts from '
               "the daemon's environment overlaid by [env]", f, wenv[0],
               'with copy_env the base environment is %s' % got.get(True), construct='env copy_env')
